@@ -21,8 +21,15 @@ import random
 import traceback
 from collections import defaultdict
 
+import os
+
 from . import comp as vcomp
 from . import tlc
+
+
+def nprocs():
+    """size of the worker pools (VERIF_PROCS, default 16)"""
+    return max(1, int(os.environ.get("VERIF_PROCS", "16")))
 
 
 class Phases:
@@ -102,13 +109,13 @@ def _probe_task(args):
         return cfg, type(ex).__name__ + ": " + str(ex)[:200], traceback.format_exc()[-1500:]
 
 
-def probe_configs(comp, cfgs, rep, namer, classer, procs=16):
+def probe_configs(comp, cfgs, rep, namer, classer, procs=None):
     """Build (elaborate) every configuration once.  Returns the configurations that elaborate.
     Failures are grouped by (component, configuration class, exception) -> one violation each."""
     cfgs = list(cfgs)
     if not cfgs:
         return []
-    with mp.Pool(min(procs, len(cfgs))) as pool:
+    with mp.Pool(min(procs or nprocs(), len(cfgs))) as pool:
         out = pool.map(_probe_task, [(comp.module, comp.attr, c) for c in cfgs], chunksize=1)
     ok, groups = [], defaultdict(list)
     for cfg, err, tb in out:
@@ -147,6 +154,11 @@ def validate_grouped(comp, traces, rep, namer, classer, timeout=1800):
                        "affected": [it[1]["cfg"] for it in items][:40],
                        "schedule": [vcomp._sched_of(c) for c in tr["cycles"][:ln]]})
     return rej
+
+
+def accepted(traces, rej):
+    bad = {r["tid"] for r in rej}
+    return [t for i, t in enumerate(traces) if i + 1 not in bad]
 
 
 # ---------------------------------------------------------------------------------------
@@ -203,7 +215,7 @@ def _replay_task(args):
         return cfg, [], [], traceback.format_exc()
 
 
-def replay_edges_pub(comp, edges, inits, rep, projname, namer, classer, procs=16, max_len=40,
+def replay_edges_pub(comp, edges, inits, rep, projname, namer, classer, procs=None, max_len=40,
                      max_walks_per_cfg=None):
     """Edge-cover walks (framework planner) replayed with register comparison.  Violations
     are grouped per (component, configuration class).  max_walks_per_cfg: replay only the longest
@@ -223,7 +235,7 @@ def replay_edges_pub(comp, edges, inits, rep, projname, namer, classer, procs=16
     tasks = [(comp.module, comp.attr, projname, cfg, walk) for cfg, walk in walks]
     if not tasks:
         return 0, 0
-    with mp.Pool(min(procs, len(tasks))) as pool:
+    with mp.Pool(min(procs or nprocs(), len(tasks))) as pool:
         results = pool.map(_replay_task, tasks, chunksize=1)
     nsteps = sum(len(w) for _, w in walks)
     rep.add("edges_total", len(edges))
@@ -284,7 +296,7 @@ def _netlist_task(args):
         return cfg, None, traceback.format_exc()[-1500:]
 
 
-def disabled_no_hardware(modname, buildname, cfgs, rep, namer, procs=16):
+def disabled_no_hardware(modname, buildname, cfgs, rep, namer, procs=None):
     """For every cfg: with metrics disabled the netlist contains none of the metric's public
     value registers, no flip-flop besides the harness dummy and no memory; with metrics
     enabled (positive control) every public value register is in the netlist."""
@@ -292,7 +304,7 @@ def disabled_no_hardware(modname, buildname, cfgs, rep, namer, procs=16):
     for c in cfgs:
         tasks.append((modname, buildname, dict(c, en=False)))
         tasks.append((modname, buildname, dict(c, en=True)))
-    with mp.Pool(min(procs, max(1, len(tasks)))) as pool:
+    with mp.Pool(min(procs or nprocs(), max(1, len(tasks)))) as pool:
         out = pool.map(_netlist_task, tasks, chunksize=1)
     n_ok = 0
     for cfg, res, err in out:
